@@ -38,7 +38,7 @@ Definition passed (w : wst) : bool :=
 Definition ResultJustified (s : state) (r : wres) : Prop :=
   match r with
   | RPath => exists e, e < nps s /\ g_ok (pss s e) = true
-  | RNone => True
+  | RNone | RTimeout => True
   | RErr ENoPaths => True
   | RErr EInternal => exists e, e < nps s /\ g_err (pss s e) = true
   | RErr (EExit x) => exists e, e < nps s /\ cerr (pss s e) = Some (EExit x) /\
@@ -61,7 +61,7 @@ Definition xdist (c : wctl) : nat :=
 Definition worker_of (l : label) : option nat :=
   match l with
   | LBegin e | LFetched e _ | LSetErr e | LSlot e _ | LComplete e | LRelease e | LQuit e _
-  | LExitRemove e | LExitBlock e | LExitClear e => Some e
+  | LExitRemove e | LExitSkip e | LExitBlock e | LExitClear e => Some e
   | _ => None
   end.
 Definition progress_of (e : nat) (l : label) : bool :=
@@ -72,7 +72,7 @@ Definition progress_of (e : nat) (l : label) : bool :=
 Definition caller_of (l : label) : option nat :=
   match l with
   | LPeek i _ _ | LContains i _ | LEnsure i _ _ | LLoad1 i _ | LCheck i _ | LWake i
-  | LLoad2 i _ | LErr i _ => Some i
+  | LLoad2 i _ | LErr i _ | LAbandon i | LExpired i _ => Some i
   | _ => None
   end.
 
@@ -107,12 +107,12 @@ Definition started (tr : list label) : list nat :=
 Definition all_released (tr : list label) (res : list (nat * wres)) : bool :=
   forallb (fun i => existsb (fun '(j, _) => Nat.eqb i j) res) (started tr).
 
-(** a caller whose locked block created a Notified future is woken later *)
+(** a caller whose locked block created a Notified future is woken later (or gives up) *)
 Fixpoint registered_woken (tr : list label) : bool :=
   match tr with
   | [] => true
   | LCheck i false :: r =>
-    existsb (fun l => match l with LWake j => Nat.eqb i j | _ => false end) r && registered_woken r
+    existsb (fun l => match l with LWake j | LAbandon j => Nat.eqb i j | _ => false end) r && registered_woken r
   | _ :: r => registered_woken r
   end.
 
@@ -126,7 +126,7 @@ Definition result_shape_ok (tr : list label) (res : list (nat * wres)) : bool :=
   forallb (fun '(i, r) =>
              match kind_of tr i, r with
              | Some KPath, RNone => false
-             | Some KCached, RErr _ => false
+             | Some KCached, RErr _ | Some KCached, RTimeout => false
              | None, _ => false
              | _, _ => true
              end) res.
